@@ -75,6 +75,7 @@ pub fn gen_opts(profile: &str) -> GenOpts {
     match profile {
         "core" => GenOpts::core(),
         "classic" => GenOpts::classic(),
+        "cse" => GenOpts::cse(),
         _ => GenOpts::full(),
     }
 }
